@@ -51,6 +51,8 @@ type TEvent struct {
 	Kind  string // complete | addnodes | stop | drain
 	Pick  int
 	Batch []TSeed
+	// Single: the batch is handed over contact by contact through AddNode instead of in one AddNodes call
+	Single bool
 }
 
 type TravSc struct {
@@ -237,7 +239,7 @@ func genTravGeneral(t *rapid.T, bias string) TravSc {
 		case roll < 13:
 			e = TEvent{Kind: "complete", Pick: rapid.IntRange(0, 15).Draw(t, "e.pick")}
 		case roll < 16 || (bias == "C03" && roll < 18):
-			e = TEvent{Kind: "addnodes", Batch: genSeeds("e.batch", 1, 4)}
+			e = TEvent{Kind: "addnodes", Batch: genSeeds("e.batch", 1, 4), Single: uniformInt(t, 3, "e.single") == 0}
 		case roll < 18:
 			e = TEvent{Kind: "drain"}
 		default:
@@ -622,7 +624,7 @@ func runTrav(sc TravSc, c *kit.Case, clause string) *kit.Violation {
 		Target: krpc.ID(e.target), Alpha: sc.Alpha, K: sc.K,
 		DoQuery: e.doQuery, NodeFilter: e.filter, DataFilter: e.dataFilter,
 	})
-	addNodes := func(batch []TSeed) {
+	addNodes := func(batch []TSeed, single bool) {
 		var l []types.AddrMaybeId
 		e.mu.Lock()
 		for _, s := range batch {
@@ -630,9 +632,28 @@ func runTrav(sc TravSc, c *kit.Case, clause string) *kit.Violation {
 			l = append(l, e.ami(s))
 		}
 		e.mu.Unlock()
+		if single {
+			c.Label("contacts-added-one-by-one")
+			for _, a := range l {
+				e.op.AddNode(a)
+			}
+			return
+		}
 		e.op.AddNodes(l)
 	}
-	addNodes(sc.Seeds)
+	seedsSingly := len(sc.Events)%4 == 3
+	if seedsSingly {
+		// hand the seeds to a lookup that is idle: take the empty lookup's stall report first, so that its
+		// run loop is asleep when the first contact arrives (nothing in flight can wake it by accident)
+		select {
+		case <-e.op.Stalled():
+		case <-time.After(5 * time.Second):
+			c.Inconclusive = "empty lookup did not report stalled within 5 s"
+			e.op.Stop()
+			return nil
+		}
+	}
+	addNodes(sc.Seeds, seedsSingly)
 
 	sawStall, lateAdd, stopInFlight, stallLeftovers, reordered := false, false, false, false, false
 	issueSeq := 0
@@ -742,7 +763,7 @@ func runTrav(sc TravSc, c *kit.Case, clause string) *kit.Violation {
 			if sawStall && !e.stopped {
 				lateAdd = true
 			}
-			addNodes(ev.Batch)
+			addNodes(ev.Batch, ev.Single)
 		case "drain":
 			for e.releaseOne(0) {
 				if v := e.settle(); v != nil {
